@@ -27,8 +27,10 @@ type SimRand struct {
 	stream    []byte
 	script    []ReadStep
 	Delivered []byte
+	OpStart   int
 	Calls     int
 	Failed    bool
+	dead      error
 }
 
 func NewSimRand(e *Entropy) *SimRand {
@@ -36,8 +38,23 @@ func NewSimRand(e *Entropy) *SimRand {
 	return &SimRand{stream: b, script: append([]ReadStep(nil), e.Script...)}
 }
 
+// Begin marks the start of an operation that is handed this source: the bytes
+// the operation is given are Delivered[OpStart:].
+func (r *SimRand) Begin() { r.OpStart = len(r.Delivered) }
+
 func (r *SimRand) Read(p []byte) (int, error) {
 	r.Calls++
+	if r.dead != nil { // a source that has failed stays failed
+		return 0, r.dead
+	}
+	n, err := r.read(p)
+	if err != nil {
+		r.dead = err
+	}
+	return n, err
+}
+
+func (r *SimRand) read(p []byte) (int, error) {
 	st := ReadStep{Kind: "all"}
 	if len(r.script) > 0 {
 		st = r.script[0]
@@ -79,6 +96,7 @@ type KeyObj struct {
 	Pub      ed25519.PublicKey
 	Priv     ed25519.PrivateKey
 	Attacker bool
+	Rotated  bool // Pub no longer belongs to Priv
 }
 
 type TokObj struct {
@@ -337,6 +355,18 @@ func (m *VM) keySource(ks *KeySel) (biscuit.PublickKeyByIDProjection, ed25519.Pu
 			p := k.Pub
 			def = &p
 		}
+		if ks.DefEmpty {
+			var e ed25519.PublicKey
+			if ks.Def%2 == 0 {
+				e = ed25519.PublicKey{}
+			}
+			def = &e // configured, but nil or empty
+		}
+		for _, id := range ks.Empty {
+			if _, ok := mp[id]; !ok {
+				mp[id] = nil
+			}
+		}
 		return biscuit.WithRootPublicKeys(mp, def), nil, true
 	}
 	k := m.Key(ks.Key)
@@ -360,6 +390,9 @@ func (m *VM) RefKey(ks *KeySel, id *uint32) ed25519.PublicKey {
 		return nil
 	}
 	if id == nil {
+		if ks.DefEmpty {
+			return nil
+		}
 		if ks.Def > 0 {
 			return m.Key(ks.Def).Pub
 		}
